@@ -207,6 +207,7 @@ pub fn plan(property: &str, tier: Tier) -> Option<Plan> {
             // a computed node released by one bind and picked up by a later one in the same stabilise
             jobs.push(g("shapes/readopt", "rel", if q { 4 } else { 7 }).armed(&a));
             jobs.push(g("shapes/readopt", "dbg", if q { 4 } else { 6 }).armed(&a));
+            jobs.push(g("shapes/binds-started", "rel", if q { 5 } else { 7 }).armed(&a));
             ("model_checking", mc_rule, vec!["value domain {0,1,2}", "programs of <= 15 nodes", "internal recompute schedules reached through observe / un-observe orders of <= 2-3 observers"], if q { 60 } else { 900 })
         }
         "C03" => {
@@ -302,6 +303,7 @@ pub fn plan(property: &str, tier: Tier) -> Option<Plan> {
             jobs.push(g("shapes/binds", "rel", if q { 6 } else { 7 }).armed(&a));
             jobs.push(g("c06/cutoffs", "dbg", if q { 4 } else { 6 }).armed(&a));
             jobs.push(g("shapes/readopt", "rel", if q { 4 } else { 7 }).armed(&a));
+            jobs.push(g("shapes/binds-started", "rel", if q { 5 } else { 7 }).armed(&a));
             // a variable with Cutoff::Never written outside stabilise, from node functions (deferred) and from update
             // handlers: its needed readers must re-run at the next stabilise whatever was written (vars world)
             jobs.push(JobDef::new("vars", "c08/never", "rel", if q { 7 } else { 9 }).armed(&a));
